@@ -334,7 +334,7 @@ def remove_row_conservation(ctx):
     yield from _remove_counters(ctx)
 
 
-@rule("C03.R2", ["C03"], min_instances=4, design="3.3")
+@rule("C03.R2", ["C03", "C15"], min_instances=4, design="3.3")
 def update_row_conservation(ctx):
     """Each path through a rewrite-loop iteration of _update_helper appends exactly one row (verbatim or re-serialised)."""
     yield from _conservation(ctx, "TinyFlux._update_helper", "C03.R2", ["C03"], {"KEEP", "REWRITE"})
@@ -446,6 +446,7 @@ def _update_counters(ctx):
                 if incs.get(j, 0) > 1:
                     bad.append(f"path {_path_text(g, nodes)} advances {j} twice")
         # REWRITE must be conditional on the updater's verdict being true
+        bad_noop = []
         for n in walk_local(lp):
             if isinstance(n, ast.Call) and is_temp_append(ctx, f, n):
                 a0 = n.args[0] if n.args else None
@@ -453,8 +454,8 @@ def _update_counters(ctx):
                         and call_name(a0.elts[0]) == "_serialize_point":
                     cl = guard_clauses(guards(n, stop=lp), subst)
                     if not any(len(c) == 1 and next(iter(c))[1] and "perform_update(" in next(iter(c))[0] for c in cl):
-                        bad.append(f"re-serialised append at line {n.lineno} is not conditional on the updater "
-                                   f"reporting a change")
+                        bad_noop.append(f"re-serialised append at line {n.lineno} is not conditional on the updater "
+                                        f"reporting a change: an update that changes nothing still rewrites storage")
         # the updater call itself: under filter and (update_all or query) / index membership
         for n in walk_local(lp):
             if isinstance(n, ast.Call) and isinstance(n.func, ast.Name) and n.func.id == "perform_update":
@@ -476,6 +477,10 @@ def _update_counters(ctx):
                     if not any(any("query(" in a and p_ for a, p_ in c) and all(
                             ("query(" in a or "update_all" in a) and p_ for a, p_ in c) for c in cl):
                         bad.append(f"updater at line {n.lineno} not conditional on `update_all or query(point)`")
+        yield Ob("C03.R2", ["C03", "C15"], f"TinyFlux._update_helper | rewrite only on change in loop over "
+                 f"{norm(lp.iter)} #{rewrite_loops(ctx, f).index(lp) + 1}", not bad_noop,
+                 "; ".join(bad_noop) if bad_noop else "rows are re-serialised only when the updater reports a change",
+                 ctx.prog.loc(lp))
         yield Ob("C03.R2", ["C03"], f"TinyFlux._update_helper | counters and updater guards in loop over "
                  f"{norm(lp.iter)} #{rewrite_loops(ctx, f).index(lp) + 1}", not bad,
                  "; ".join(bad[:4]) if bad else f"{uc} counts exactly the re-serialised rows; updater applied under "
